@@ -77,7 +77,7 @@ class PathClean(Engine):
         return '/'.join(rng.choices(self.SYMS, w, k=n)) if n else rng.choice(['', '/', '.', '..', '//'])
 
     def gen(self, rng, tier):
-        ncase = 60 if tier == 'quick' else 1500
+        ncase = 60 if tier == 'quick' else 1000
         for i in range(ncase):
             ops = []
             for _ in range(50):
@@ -107,7 +107,7 @@ class PathClean(Engine):
             if ops:
                 yield Case('enum', ops)
         # check_symlinks_fsobj on a planted tree
-        for i in range(150 if tier == 'quick' else 3000):
+        for i in range(150 if tier == 'quick' else 2000):
             ops = []
             for _ in range(rng.choice([1, 2, 3, 4])):
                 ops.append(G.rand_pre(rng))
@@ -180,11 +180,11 @@ class Xtr(Engine):
     timeout = 3000
 
     def gen(self, rng, tier):
-        n = 450 if tier == 'quick' else 6000
+        n = 450 if tier == 'quick' else 4000
         for i in range(n):
             yield Case(f'seq{i}', G.sequence(rng, tier))
         if tier != 'quick':
-            for j, ops in enumerate(G.exhaustive3([['time', 'perm'], ['unlink', 'time', 'perm'], ['safewrites', 'nooverwrite', 'time']])):
+            for j, ops in enumerate(G.exhaustive3([['time', 'perm'], ['unlink', 'time', 'perm', 'safewrites']])):
                 yield Case(f'ex{j}', ops)
 
     def oracle(self, case, impl):
@@ -240,7 +240,7 @@ class XtrTar(Xtr):
         return Engine.build(self)
 
     def gen(self, rng, tier):
-        n = 120 if tier == 'quick' else 1500
+        n = 120 if tier == 'quick' else 1000
         for i in range(n):
             yield Case(f'tar{i}', ['mode tar'] + G.sequence(rng, tier))
 
